@@ -7,6 +7,7 @@
             ws (the columns that hold a whitespace character)]
      B   sequence of blocks in document order (from an independent CommonMark parser):
            [k ("h", "fence", "icode", "hr", "html", "p", "ul", "ol", "bq"), ln, endln, level, style, info, marker, depth]
+     I   sequence of inline facts (links and images): [k, ln, href (stripped), alt (stripped)]
      cfg the rule's configuration record.
    Each Verdict_MDnnn gives the set of line numbers the rule must report. *)
 EXTENDS Integers, Sequences, FiniteSets
@@ -148,4 +149,65 @@ Verdict_MD022(L, B) ==
                                               \/ B[x].endln = Len(L)                      \* the file ends with the heading line
                                               \/ (B[x].ln > 2 /\ L[B[x].ln - 1].blank /\ L[B[x].ln - 2].blank)
                                               \/ (B[x].endln + 2 <= Len(L) /\ L[B[x].endln + 1].blank /\ L[B[x].endln + 2].blank)}})
+
+(* MD004 ul-style: the marker of an unordered list differs from the configured one / from the first unordered list item's
+   (consistent) / from the first item's at the same nesting level of unordered lists (sublist).  The rule must name the
+   first line of the list.  Undecided: the further items of such a list (same marker, by construction), and with `sublist`
+   every item when unordered lists are nested in ordered lists or block quotes (what is a level?). *)
+MarkerName(m) == IF m = "*" THEN "asterisk" ELSE IF m = "-" THEN "dash" ELSE IF m = "+" THEN "plus" ELSE ""
+Verdict_MD004(B, cfg) ==
+  LET items == Blocks(B, "li")
+      FirstWhere(S) == IF S = {} THEN 0 ELSE CHOOSE i \in S : \A j \in S : i <= j
+      want(i) == IF cfg.style = "consistent" THEN MarkerName(B[FirstWhere(items)].marker)
+                 ELSE IF cfg.style = "sublist" THEN MarkerName(B[FirstWhere({j \in items : B[j].level = B[i].level})].marker)
+                 ELSE cfg.style
+      wrong == {i \in items : MarkerName(B[i].marker) # want(i)}
+      levelsUnclear == cfg.style = "sublist" /\ \E i \in items : B[i].mixed IN
+  V({B[i].ln : i \in {x \in wrong : B[x].first}},
+    IF levelsUnclear THEN {B[i].ln : i \in items} ELSE {B[i].ln : i \in {x \in wrong : ~B[x].first}})
+
+(* MD018 no-missing-space-atx: a line of a paragraph that, after up to 3 leading spaces, starts with 1-6 `#` directly
+   followed by a character that is neither a space nor `#`.  Not when the line ends in `#` (MD020's business).
+   Undecided: paragraphs with inline elements (the exemption is per line, the facts are per paragraph), a tab after the hashes. *)
+Verdict_MD018(L) ==
+  V({i \in Lines(L) : L[i].para /\ L[i].hashes >= 1 /\ L[i].hashes <= 6 /\ L[i].afterhash = "other" /\ ~L[i].endshash},
+    {i \in Lines(L) : L[i].para /\ (L[i].pmarkup \/ L[i].afterhash = "tab")})
+
+(* MD031 blanks-around-fences: a fenced code block directly preceded (reported on the opening fence) or directly followed
+   (reported on the closing fence) by a non-blank line.  Undecided: fences inside containers (`list_items`, container
+   borders), neighbours that are not top-level paragraphs or headings. *)
+Verdict_MD031(L, B) ==
+  LET fs == Blocks(B, "fence")
+      top == {x \in fs : B[x].depth = 0}
+      above(x) == B[x].ln > 1 /\ ~L[B[x].ln - 1].blank
+      below(x) == B[x].closed /\ B[x].endln < Len(L) /\ ~L[B[x].endln + 1].blank
+      plainAbove(x) == B[x].ln > 1 /\ L[B[x].ln - 1].plain
+      plainBelow(x) == B[x].endln < Len(L) /\ L[B[x].endln + 1].plain IN
+  V({B[x].ln : x \in {y \in top : above(y) /\ plainAbove(y)}} \cup {B[x].endln : x \in {y \in top : below(y) /\ plainBelow(y)}},
+    UNION {{B[x].ln, B[x].endln} : x \in {y \in fs : B[y].depth > 0 \/ (above(y) /\ ~plainAbove(y)) \/ (below(y) /\ ~plainBelow(y)) \/ ~B[y].closed}})
+
+(* MD032 blanks-around-lists: an outermost list directly preceded (reported on its first line) or directly followed
+   (reported on its last line) by a non-blank line; lists directly inside lists are exempt.  Undecided: lists inside block
+   quotes, lists that contain other containers (which line is the last?), neighbours that are not top-level paragraphs or headings. *)
+Verdict_MD032(L, B) ==
+  LET ls == Blocks(B, "ul") \cup Blocks(B, "ol")
+      top == {x \in ls : B[x].depth = 1}
+      above(x) == B[x].ln > 1 /\ ~L[B[x].ln - 1].blank
+      below(x) == B[x].endln < Len(L) /\ ~L[B[x].endln + 1].blank
+      plainAbove(x) == B[x].ln > 1 /\ L[B[x].ln - 1].plain
+      plainBelow(x) == B[x].endln < Len(L) /\ L[B[x].endln + 1].plain IN
+  V({B[x].ln : x \in {y \in top : above(y) /\ plainAbove(y)}} \cup {B[x].endln : x \in {y \in top : ~B[y].nested /\ below(y) /\ plainBelow(y)}},
+    UNION {IF B[x].nested \/ B[x].depth > 1 THEN B[x].ln..B[x].endln ELSE {B[x].ln, B[x].endln} :
+           x \in {y \in ls : B[y].depth > 1 \/ B[y].nested \/ (above(y) /\ ~plainAbove(y)) \/ (below(y) /\ ~plainBelow(y))}})
+
+(* MD042 no-empty-links: a link or image whose destination is empty, only whitespace, or only `#`.  Inline facts I:
+   [k ("link" | "image"), ln, href, alt, sure (the line could be determined), lo, hi (lines of the enclosing block)]. *)
+Verdict_MD042(I) ==
+  LET empty == {x \in 1..Len(I) : I[x].href \in {"", "#"}} IN
+  V({I[i].ln : i \in {x \in empty : I[x].sure}}, UNION {I[i].lo..I[i].hi : i \in {x \in empty : ~I[x].sure}})
+
+(* MD045 no-alt-text: an image whose alternate text is empty or only whitespace *)
+Verdict_MD045(I) ==
+  LET noalt == {x \in 1..Len(I) : I[x].k = "image" /\ I[x].alt = ""} IN
+  V({I[i].ln : i \in {x \in noalt : I[x].sure}}, UNION {I[i].lo..I[i].hi : i \in {x \in noalt : ~I[x].sure}})
 =============================================================================
